@@ -4,6 +4,7 @@
 import Ladybug.DrvCore
 import Ladybug.Model.Cal
 import Ladybug.Model.C08Hist
+import Ladybug.Model.C08Frac
 
 open Drv Cal
 
@@ -239,7 +240,79 @@ def handleHist (toks : List String) : String :=
   | none => "bad-op"
   | some ops => " | ".intercalate ((Hist.trace Hist.Obj.fresh ops).map showOut)
 
+/-! ### round 4: fractional constructor arguments, fractional minute offsets, branch names -/
+
+/-- `_calculate_hour_and_minute(f)` with the IEEE operations of the code: `hour = int(f)`,
+    `(f - hour) * 60` formed in double arithmetic, then the exact model. -/
+def calcOfFloat? (f : Float) : Option (Int × Int) :=
+  match Py.ratOfFloatBits f.toBits with
+  | none => none
+  | some q =>
+    let hour := Py.truncRat q
+    match Py.ratOfFloatBits ((f - Float.ofInt hour) * 60.0).toBits with
+    | none => none
+    | some prod => some (calcHM hour prod)
+
+def showBranch : DoyBranch → String
+  | .negative => "negative"
+  | .fallThrough => "fall-through"
+  | .monthEnd => "month-end"
+  | .plain => "plain"
+
+def handleR4 (toks : List String) : Option String :=
+  match toks with
+  | ["calc_hm", bits] =>
+    match floatBits? bits with
+    | some f =>
+      match calcOfFloat? f with
+      | some hm => some s!"ok {hm.1} {hm.2}"
+      | none => some "err:value"
+    | none => some "bad-op"
+  | ["make_f", leap, mo, da, hbits, mbits] =>
+    match bool? leap, mo.toNat?, da.toNat?, floatBits? hbits, floatBits? mbits with
+    | some l, some mo, some da, some h, some m =>
+      match calcOfFloat? (h + m / 60.0) with
+      | some hm => some (showDT (DT.makeHM mo da hm l))
+      | none => some "err:value"
+    | _, _, _, _, _ => some "bad-op"
+  | ["time_make_f", hbits, mbits] =>
+    match floatBits? hbits, floatBits? mbits with
+    | some h, some m =>
+      match calcOfFloat? (h + m / 60.0) with
+      | some hm => some (showT (T.makeHM hm))
+      | none => some "err:value"
+    | _, _ => some "bad-op"
+  | ["add_minute_f", leap, mo, da, h, mi, bits] =>
+    match floatBits? bits with
+    | some f =>
+      match Py.ratOfFloatBits f.toBits with
+      | some x => some (onDT (dtOf leap mo da h mi) fun d => showDT (d.addMinuteQ x))
+      | none => some "err:value"
+    | none => some "bad-op"
+  | ["sub_minute_f", leap, mo, da, h, mi, bits] =>
+    match floatBits? bits with
+    | some f =>
+      match Py.ratOfFloatBits f.toBits with
+      | some x => some (onDT (dtOf leap mo da h mi) fun d => showDT (d.subMinuteQ x))
+      | none => some "err:value"
+    | none => some "bad-op"
+  | ["doy_branch", leap, k] =>
+    match bool? leap, k.toInt? with
+    | some l, some k => some ("ok " ++ showBranch (doyBranch l k))
+    | _, _ => some "bad-op"
+  | ["moy_branch", leap, m] =>
+    match bool? leap, m.toInt? with
+    | some l, some m =>
+      match moyBranch l m with
+      | some k => some s!"ok {k}"
+      | none => some "ok fall-through"
+    | _, _ => some "bad-op"
+  | _ => none
+
 def handle (toks : List String) : String :=
+  match handleR4 toks with
+  | some r => r
+  | none =>
   match toks with
   | "hist" :: rest => handleHist rest
   | ["from_moy_f", leap, bits] =>
